@@ -337,14 +337,33 @@ def r2(ctx):
                 ctx.ob("C06.R2", "datagram_received[OUT]: only a successfully parsed datagram is forwarded",
                        path_fact(c, parsed_name, dr.node) is True, where,
                        "packet built although the SOCKS header was rejected")
-            fromclient = any(isinstance(e, ast.Compare) and len(e.ops) == 1 and isinstance(e.ops[0], ast.Eq) and pol and
-                             {norm(e.left), norm(e.comparators[0])} == {f"{sparam}[0]", "self.socks_client_addr[0]"}
-                             for e, pol in facts(c, dr.node))
+            fromclient = equal_fact(c, {f"{sparam}[0]", "self.socks_client_addr[0]"}, dr.node, norm) is True
             ctx.ob("C06.R2", "datagram_received[OUT]: only datagrams from the SOCKS client's host are treated as outbound",
                    fromclient, where, "direction inference no longer tied to the association's client address")
-            learn = [s for s in stores(dr.node) if s.kind == "setitem" and s.path == "self.far_to_near_map"]
-            okl = any(ap(s.target.slice) == ap(dst) and ap(s.value) == sparam and _same_block(enclosing_stmt(s.node), enclosing_stmt(c))
-                      for s in learn)
+            # the learning store (direct, or inside a self.-helper given (remote, source)) lies on every path that
+            # builds this packet and hands it on
+            learn_nodes = []
+            for s_ in stores(dr.node):
+                if s_.kind == "setitem" and s_.path == "self.far_to_near_map" and ap(s_.target.slice) == ap(dst) \
+                        and ap(s_.value) == sparam:
+                    learn_nodes.extend(cfg.nodes_for(s_.node))
+            from .c05 import method_params, resolve_method_call
+            for hc in calls(dr.node, into_defs=False):
+                callee = resolve_method_call(repo, dr, hc)
+                if callee is None or callee == dr:
+                    continue
+                params = method_params(callee)
+                argmap = {params[i]: ap(a) for i, a in enumerate(hc.args) if i < len(params)}
+                argmap.update({k.arg: ap(k.value) for k in hc.keywords if k.arg})
+                for s_ in stores(callee.node):
+                    if s_.kind == "setitem" and s_.path == "self.far_to_near_map" and \
+                            argmap.get(ap(s_.target.slice)) == ap(dst) and argmap.get(ap(s_.value)) == sparam:
+                        learn_nodes.extend(cfg_nodes(cfg, hc))
+            cn = cfg_nodes(cfg, c)
+            before = cfg.reachable([cfg.entry], avoid=lambda n: n in learn_nodes)
+            after = cfg.reachable(cn, avoid=lambda n: n in learn_nodes)
+            handle_nodes = [n for h in find_calls(dr.node, "handle_proxied_packet", into_defs=False) for n in cfg_nodes(cfg, h)]
+            okl = bool(learn_nodes) and not (any(n in before for n in cn) and any(n in after for n in handle_nodes))
             ctx.ob("C06.R2", "datagram_received[OUT]: far_to_near_map[remote] = source is recorded with the packet", okl, where,
                    "replies from that simulator cannot be routed back to this viewer")
         elif d.endswith("Direction.IN"):
@@ -379,9 +398,14 @@ def r2(ctx):
     for f, st in writers_of(repo, "far_to_near_map"):
         if f.module.rel == "hippolyzer/lib/proxy/test_utils.py":
             continue  # test harness seeds the map instead of sending a first outbound datagram
-        ok = f.qual in ("UDPProxyProtocol.__init__", "UDPProxyProtocol.datagram_received")
-        ctx.ob("C06.R2", f"{f.qual}: {st.kind} on far_to_near_map by an owner", ok, ctx.w(f, st.node),
-               "address learning happens only on outbound datagrams")
+        kind = st.kind + (f":{st.method}" if st.method else "")
+        helper_of_dr = f.cls is not None and f.cls.name == "UDPProxyProtocol" and f != dr and \
+            all(g == dr for g, _ in callers_of(repo, f.name)) and bool(callers_of(repo, f.name))
+        ok = (f.qual == "UDPProxyProtocol.__init__" and kind == "assign") or \
+            ((f == dr or helper_of_dr) and kind == "setitem")
+        ctx.ob("C06.R2", f"{f.qual}: {kind} on far_to_near_map is the constructor or the learning store", ok, ctx.w(f, st.node),
+               "the far->near map is written outside address learning: a discard / error path that removes or "
+               "rewrites a route disturbs the delivery of later datagrams from that simulator")
 
     # UDPPacket properties
     ucls = repo.cls("UDPPacket", BTRANS)
@@ -476,11 +500,34 @@ def r2(ctx):
             continue
         nret += 1
         v = ap(r.value)
-        ok = any(isinstance(e, ast.Compare) and len(e.ops) == 1 and isinstance(e.ops[0], ast.Eq) and pol and
-                 {ap(e.left), ap(e.comparators[0])} == {f"{v}.circuit_addr", rparam} for e, pol in facts(r, rb.node))
+        ok = equal_fact(r, {f"{v}.circuit_addr", rparam}, rb.node, ap) is True
         ctx.ob("C06.R2", "region_by_circuit_addr returns a region only when its circuit_addr equals the argument", ok, ctx.w(rb, r),
                "a datagram could be attributed to another simulator's region")
     ctx.floor("C06.R2", "region_by_circuit_addr region returns", nret, 1)
+
+
+def r2_identity(ctx):
+    """circuit_addr is the key datagrams are attributed by and the circuit was built for: it is set by the
+    region constructors only."""
+    repo = ctx.repo
+    n = 0
+    for f, st in writers_of(repo, "circuit_addr"):
+        n += 1
+        ok = f.name == "__init__" and st.path == "self.circuit_addr" and st.kind == "assign"
+        ctx.ob("C06.R2", f"{f.qual}: {st.kind} on {st.path} happens in the region constructor only", ok, ctx.w(f, st.node),
+               "circuit_addr of an existing region is reassigned: its circuit still talks to the old simulator "
+               "address while datagrams from the new address are attributed to it (and the old address loses its region)")
+    ctx.floor("C06.R2", "circuit_addr writers (region constructors)", n, 2)
+
+
+def equal_fact(node, sides: set, stop, key) -> Optional[bool]:
+    """Is `a == b` (sides given as a set of key() texts) known at node?  `==` true and `!=` false both
+    establish equality (guard-clause and nested spellings are the same fact)."""
+    for e, pol in facts(node, stop):
+        if isinstance(e, ast.Compare) and len(e.ops) == 1 and isinstance(e.ops[0], (ast.Eq, ast.NotEq)) \
+                and {key(e.left), key(e.comparators[0])} == sides:
+            return pol if isinstance(e.ops[0], ast.Eq) else not pol
+    return None
 
 
 def _same_block(a, b) -> bool:
@@ -613,23 +660,85 @@ def r3(ctx):
                    path_fact(n, rvar, hp.node) is True, ctx.w(hp, n), "region may be None here")
     ctx.floor("C06.R3", "region dereferences", nderef, 5)
 
-    # ---- claim / open only for outgoing UseCircuitCode
+    # ---- claim / open only for outgoing UseCircuitCode (self.-helpers of the protocol class are followed)
     for nm in ("claim_session", "open_circuit"):
-        cs = find_calls(hp.node, nm, into_defs=False)
-        ctx.floor("C06.R3", f"{nm} calls", len(cs), 1)
-        for c in cs:
-            okn = name_fact(c, "UseCircuitCode", hp.node) is True
-            oko = path_fact(c, f"{pk}.outgoing", hp.node) is True or path_fact(c, f"{pk}.incoming", hp.node) is False
-            ctx.ob("C06.R3", f"handle_proxied_packet: {nm} only for an outgoing UseCircuitCode", okn and oko, ctx.w(hp, c),
+        chains = helper_chains(repo, hp, lambda c, nm=nm: call_attr(c) == nm, {pk: pk})
+        ctx.floor("C06.R3", f"{nm} calls", len(chains), 1)
+        for chain in chains:
+            fi, c, _ = chain[-1]
+            okn = any(name_fact(n, "UseCircuitCode", f.node) is True for f, n, _ in chain)
+            oko = any(names.get(pk) and (path_fact(n, f"{names[pk]}.outgoing", f.node) is True or
+                                         path_fact(n, f"{names[pk]}.incoming", f.node) is False) for f, n, names in chain)
+            ctx.ob("C06.R3", f"handle_proxied_packet: {nm} only for an outgoing UseCircuitCode", okn and oko, ctx.w(fi, c),
                    f"name==UseCircuitCode known: {okn}, outgoing known: {oko}")
-    for c in find_calls(hp.node, "claim_session", into_defs=False):
-        ctx.ob("C06.R3", "handle_proxied_packet: a session is claimed only while none is attached",
-               path_fact(c, "self.session", hp.node) is False, ctx.w(hp, c))
+            if nm == "claim_session":
+                ctx.ob("C06.R3", "handle_proxied_packet: a session is claimed only while none is attached",
+                       any(path_fact(n, "self.session", f.node) is False for f, n, _ in chain), ctx.w(fi, c))
     # ---- the ban predicate itself
     vm = repo.fn("MessageDotXML.validate_udp_msg")
     rets = [r for r in walk(vm.node) if isinstance(r, ast.Return)]
     falsy = [r for r in rets if isinstance(r.value, ast.Constant) and not r.value.value]
     ctx.ob("C06.R3", "validate_udp_msg can refuse a message", len(falsy) >= 1, vm.where, "the ban predicate is constantly true")
+
+
+def r3_claim(ctx):
+    """A pending session is handed to exactly one UDP association: claim_session returns a session only
+    while it is pending, with the requested id, and clears `pending` before returning it."""
+    repo = ctx.repo
+    cs = repo.fn("SessionManager.claim_session", SESS)
+    sid = msg_param(cs)
+    cfg = CFG(cs.node)
+    nret = 0
+    for r in [r for r in walk(cs.node) if isinstance(r, ast.Return)]:
+        if r.value is None or (isinstance(r.value, ast.Constant) and r.value.value is None):
+            continue
+        v = ap(r.value)
+        if v is None:
+            raise AnalysisError(f"claim_session: unsupported result {norm(r.value)}")
+        nret += 1
+        ctx.ob("C06.R3", "claim_session hands out a session only while it is pending",
+               path_fact(r, f"{v}.pending", cs.node) is True, ctx.w(cs, r),
+               "an already claimed session is returned again: a second UDP association attaches to a session that "
+               "belongs to another viewer connection")
+        ctx.ob("C06.R3", "claim_session hands out the session with the requested id",
+               equal_fact(r, {f"{v}.id", sid}, cs.node, ap) is True, ctx.w(cs, r))
+        clears = [n for st in stores(cs.node) if st.path == f"{v}.pending" and isinstance(st.value, ast.Constant)
+                  and st.value.value is False for n in cfg.nodes_for(st.node)]
+        reach = cfg.reachable([cfg.entry], avoid=lambda n: n in clears)
+        ctx.ob("C06.R3", "claim_session clears `pending` before returning the session",
+               bool(clears) and not any(n in reach for n in cfg.nodes_for(r)), ctx.w(cs, r),
+               "the session stays pending: the next association can claim it as well")
+    ctx.ob("C06.R3", "claim_session can hand out a session", nret >= 1, cs.where, "no viewer can ever attach")
+
+
+def helper_chains(repo, start: FuncInfo, is_target, names: Dict[str, str], depth=2):
+    """Call chains [(fn, node, names)] from `start` through self.-helper calls to calls satisfying is_target.
+    `names` maps locals of `start` to the name they carry in each function (arguments passed as plain names)."""
+    from .c05 import method_params, resolve_method_call
+    out = []
+
+    def rec(fi, nm, prefix, d):
+        for c in calls(fi.node, into_defs=False):
+            if is_target(c):
+                out.append(prefix + [(fi, c, nm)])
+                continue
+            if d <= 0:
+                continue
+            callee = resolve_method_call(repo, fi, c)
+            if callee is None or callee == fi or any(callee == f for f, _, _ in prefix):
+                continue
+            params = method_params(callee)
+            inv = {v: k for k, v in nm.items()}
+            sub = {}
+            for i, a in enumerate(c.args):
+                if isinstance(a, ast.Name) and a.id in inv and i < len(params):
+                    sub[inv[a.id]] = params[i]
+            for k in c.keywords:
+                if isinstance(k.value, ast.Name) and k.value.id in inv and k.arg:
+                    sub[inv[k.value.id]] = k.arg
+            rec(callee, sub, prefix + [(fi, c, nm)], d - 1)
+    rec(start, dict(names), [], depth)
+    return out
 
 
 def _raises_when_banned(ctx, target: FuncInfo, call: ast.Call) -> bool:
@@ -805,7 +914,9 @@ def r5(ctx):
 def run(ctx):
     r1(ctx)
     r2(ctx)
+    r2_identity(ctx)
     r3(ctx)
+    r3_claim(ctx)
     r4(ctx)
     r5(ctx)
     ctx.assume("message content integrity is C01/C02's codec; behaviour across sessions/regions at run time is not decided")
